@@ -20,6 +20,7 @@ def parseOp (j : J) : Except String Op := do
              else throw s!"unknown rx {r}"
     pure (.pumpRW rx (← parseOutcome j))
   else if k = "shutdown" then pure .shutdown
+  else if k = "close" then pure .close
   else throw s!"unknown op {k}"
 
 def parseAct (j : J) : Except String Act := do
